@@ -112,6 +112,13 @@ hwloc_synthetic_process_indexes(struct hwloc_synthetic_backend_data_s *data,
   if (!attr)
     return;
 
+  if (total > UINT_MAX) {
+    /* indexes and interleaving steps are unsigned */
+    if (verbose)
+      fprintf(stderr, "Cannot use synthetic indexes for %lu objects\n", total);
+    return;
+  }
+
   array = calloc(total, sizeof(*array));
   if (!array) {
     if (verbose)
@@ -206,6 +213,13 @@ hwloc_synthetic_process_indexes(struct hwloc_synthetic_backend_data_s *data,
 	if (!nb) {
 	  if (verbose)
 	    fprintf(stderr, "Invalid interleaving loop with number 0 at '%s'\n", tmp2);
+	  free(loops);
+	  goto out_with_array;
+	}
+	if (nb > total / nbs) {
+	  /* nbs must end up being total or one of its divisors, and nbs *= nb below must not wrap */
+	  if (verbose)
+	    fprintf(stderr, "Invalid interleaving loop with too many iterations at '%s'\n", tmp2);
 	  free(loops);
 	  goto out_with_array;
 	}
